@@ -171,8 +171,19 @@ ilu_dcopy_to_ucol(
 		d_max = 1.0 / d_max; d_min = 1.0 / d_min;
 		tol = 1.0 / (d_max + (d_min - d_max) * quota / m);
 	    } else {
+		double *work0 = work;
+		if ( m > Glu->n ) {
+		    /* work[] holds n entries, but a column of the incomplete U may
+		       list a row more than once */
+		    if ( !(work = doubleMalloc(m)) )
+			ABORT("Malloc fails for work[] in ilu_dcopy_to_ucol().");
+		}
 		dcopy_(&m, &ucol[xusub[jcol]], &i_1, work, &i_1);
 		tol = dqselect(m, work, quota);
+		if ( work != work0 ) {
+		    SUPERLU_FREE(work);
+		    work = work0;
+		}
 #if 0
 		A = &ucol[xusub[jcol]];
 		for (i = 0; i < m; i++) work[i] = i;
